@@ -47,7 +47,7 @@ Record toracles := {
 Definition orc (o : toracles) (intls : bool) : oracles :=
   {| o_helo := o_helo (o_clear o); o_addr := o_addr (o_clear o); o_ext := o_ext (o_clear o);
      o_relay := o_relay (o_clear o); o_mx := o_mx (o_clear o); o_qq := o_qq (o_clear o);
-     o_databytes := o_databytes (o_clear o);
+     o_databytes := o_databytes (o_clear o); o_liphost := o_liphost (o_clear o);
      o_trace := if intls then o_trace_tls o else o_trace (o_clear o) |}.
 
 (** the client's script *)
@@ -114,8 +114,8 @@ Definition handshake (n : nat) (e : env) (l : list (hs_kind * list bytes)) (clos
 
 (** ---------- smtp_starttls / tls_init ---------- *)
 (** [s]: the session state after the STARTTLS line has been taken from the reader.
-    Note what tls_init does NOT do: it neither empties lineinn nor looks at it after the handshake; the only
-    protection is the sync_pipelining() call before the 220. *)
+    Note what tls_init does NOT do: it neither empties lineinn nor looks at it after the handshake; the
+    protection is the sync_pipelining() call before the 220 (and, as a second line, drop_stale_input() in net_read). *)
 Definition h_starttls (f : nat) (o : toracles) (closes : bool) (t : tstate) (s : sstate) : list tevent * hres * tstate :=
   if (STARTTLS_REFUSES_IN_TLS && tls t) || (STARTTLS_REFUSES_NON_ESMTP && negb (esmtp s)) then ([], HSEQ, mk t s)   (* return 1 *)
   else if negb (o_tlsinit o) then (tag (tls t) [Reply TLS_FAIL_CODE], if TLS_ERR_RETURNS_EDONE then HEDONE else HUNKNOWN, mk t s)   (* tls_err() *)
@@ -127,9 +127,12 @@ Definition h_starttls (f : nat) (o : toracles) (closes : bool) (t : tstate) (s :
         let r1 := rd s1 in
         match handshake (o_eat o) (en r1) (later t) closes with
         | HS_ok segs l' =>
-            (* ssl = myssl; xmitstat.ssl = myssl; return 0.  From now on readinput() uses ssl_timeoutread(). *)
+            (* ssl = myssl; xmitstat.ssl = myssl; return 0.  From now on readinput() uses ssl_timeoutread().
+               tls_init itself leaves lineinn alone; the next net_read() empties it when lib/netio.c has
+               drop_stale_input() (ssl changed since the buffer was filled), otherwise it is used as it is. *)
             (tag (tls t) [Reply TLS_READY_CODE] ++ [TSwitch], H0,
-             {| ss := set_rd s1 {| inn := inn r1; en := {| cur := []; future := segs |} |}; tls := true; later := l' |})
+             {| ss := set_rd s1 {| inn := if NETIO_DROPS_STALE_INPUT then [] else inn r1; en := {| cur := []; future := segs |} |};
+                tls := true; later := l' |})
         | HS_fail attempt e' l' =>
             (* ssl_free(myssl); return -tls_out("connection failed", err, -EDONE) *)
             (tag (tls t) [Reply TLS_READY_CODE] ++ (if attempt then [TFail] else []) ++ tag (tls t) [Reply TLS_FAIL_CODE], HEDONE,
@@ -197,7 +200,7 @@ Definition tstep (f : nat) (o : toracles) (closes : bool) (t : tstate) : list te
           let '(evs, h, t1) := tdispatch f o closes t s l i row in
           match h with
           | HEXIT => (evs, None)
-          | H0 => (evs, Some t1)
+          | H0 => (evs ++ [TE (tls t1) (Note NBadReset)], Some t1)        (* badcmds = 0, as Session.step *)
           | _ => let '(ev, so) := on_error (ss t1) h in (evs ++ tag (tls t1) ev, option_map (mk t1) so)
           end
       | None => plain
